@@ -4,7 +4,7 @@ import ast
 from ..cfg import describe_path, pair_leaks, release_without_acquire, witness
 from ..core import AnalysisError, u, walk_local, enclosing_stmt, ancestors, FuncNode
 from ..lib import (construct, std_facts, facts_at, def_of, calls_of_node,
-                   in_subtree, single_reaching_value)
+                   in_subtree, single_reaching_value, expand_expr)
 from ..resolve import store_accesses, enclosing_withs, in_with_body
 from .common import LOCK_SETTER, ENTER, nodes_calling
 
@@ -52,8 +52,16 @@ def run(ctx):
   ctx.check(not bad, 'C16.context', construct(ps), 'no pop without a push', 'a path pops the parse-context stack without having pushed',
             ps.loc(), instance='pop-without-push', path=describe_path(g, bad[0][1]) if bad else None)
   fresh = [c for n in acq for c in calls_of_node(n) if u(c.func) == '_PARSE_CONTEXTS.append']
-  ok = all(len(c.args) == 1 and isinstance(c.args[0], ast.Call) and
-           prog.resolve_call(ps, c.args[0]) == 'config.ParseContext' for c in fresh)
+  _g_ps, _f_ps = std_facts(prog, ps)
+  def new_context(n, c):
+    if len(c.args) != 1:
+      return False
+    a0 = c.args[0]
+    if isinstance(a0, ast.Name):
+      # a temporary holding the context constructed just before
+      a0 = expand_expr(_f_ps[n.id], a0)
+    return isinstance(a0, ast.Call) and prog.resolve_call(ps, a0) == 'config.ParseContext'
+  ok = all(new_context(n, c) for n in [x for x in _g_ps.live_nodes()] for c in calls_of_node(n) if u(c.func) == '_PARSE_CONTEXTS.append')
   ctx.check(ok, 'C16.context', construct(ps), 'each parse pushes a newly constructed ParseContext',
             'the pushed context is not a new ParseContext', ps.loc(), instance='fresh')
 
